@@ -178,7 +178,10 @@ def queries(tier):
                              timeout=300 if not T else 900, expect_cover=["ok"], family="tail2", config={"body": tag, "prefix": L}))
     for tag in (["one", "crlf-data", "hyph-bound"] if not T else ["one", "two", "epi", "crlf-data", "hyph-bound", "dash-bound"]):
         dp = data_positions(tag)
-        hole_sets = [[dp[0]]] if not T else [[dp[0]], [dp[-1]], [dp[0], dp[len(dp) // 2]]]
+        hole_sets = []
+        for hs in ([[dp[0]]] if not T else [[dp[0]], [dp[-1]], sorted({dp[0], dp[len(dp) // 2]})]):
+            if hs not in hole_sets:
+                hole_sets.append(hs)
         for hs in hole_sets:
             out.append(Q("holes/%s/h%s/cut1" % (tag, "-".join(map(str, hs))), make_holes(tag, hs, False),
                          "corpus body %r with data byte(s) at %r symbolic (all values keeping it well-formed), every prefix "
